@@ -107,6 +107,8 @@ func runSolver(ctx context.Context, sp solverSpec, file string, secs int) (statu
 	out = buf.String()
 	first := strings.TrimSpace(strings.SplitN(out, "\n", 2)[0])
 	switch {
+	case strings.HasPrefix(first, "(error") && !strings.Contains(first, "model is not available"):
+		status = "error"
 	case first == "unsat" || first == "sat" || first == "unknown":
 		status = first
 	case strings.Contains(first, "timeout") || cctx.Err() != nil || strings.Contains(out, "interrupted by timeout"):
